@@ -177,9 +177,54 @@ class Ctx:
         return sorted(sym.atom_str(e, v, s) for e, v in cs)
 
     def pc_strs(self, body, blk):
-        """Path condition of block as a list of disjuncts, each a set of atom strings."""
+        """Path condition of block as a list of disjuncts, each a set of atom strings.  A private
+        helper with a single call site that hands its own parameters on unchanged (an extracted
+        method) also stands under the path condition of that call site."""
         s, pc = self.sym(body)
-        return [set(sym.atom_str(e, v, s) for e, v in cs) for cs in pc.conditions(blk)]
+        own = [set(sym.atom_str(e, v, s) for e, v in cs) for cs in pc.conditions(blk)]
+        outer = self._caller_conditions(body)
+        if not outer:
+            return own
+        out = []
+        for o in outer:
+            for d in own:
+                both = o | d
+                # contradictory boolean atoms => infeasible combination
+                if any(a.endswith("=True") and (a[:-4] + "False") in both for a in both):
+                    continue
+                if both not in out:
+                    out.append(both)
+        return out
+
+    def _caller_conditions(self, body, depth=0):
+        key = body.key
+        cache = self.__dict__.setdefault("_callercond", {})
+        if key in cache:
+            return cache[key]
+        cache[key] = None
+        if depth > 2 or body.kind not in ("Fn", "AssocFn") or not str(body.raw.get("vis", "")).startswith("Restricted"):
+            return None
+        sites = []
+        for c in self.all_bodies(body.crate):
+            if c.key == key or c.raw.get("test_body"):
+                continue
+            for blk, t in c.calls():
+                if mir.callee_of(t) == key:
+                    sites.append((c, blk, t))
+        if len(sites) != 1:
+            return None
+        c, blk, t = sites[0]
+        if c.kind == "Closure" or len(t["args"]) != body.arg_count:
+            return None
+        s_b, _ = self.sym(body)
+        for i, a in enumerate(t["args"]):
+            want = sym.show(s_b.local(i + 1), s_b)
+            if self.expr(c, a) != want:
+                return None
+        res = self.pc_strs(c, blk)
+        res = [set(d) for d in res if d] or None
+        cache[key] = res
+        return res
 
     @staticmethod
     def _sat(disjunct, pattern):
@@ -470,6 +515,25 @@ class Ctx:
             out.append(c)
             out.extend(self._closures_deep(c))
         return out
+
+    def generator_group(self, body):
+        """a generator and the private helper fns (with templates of their own) it was cut into"""
+        from . import tpl as _tpl
+        out = [body]
+        for h in self.local_callees(body, depth=2):
+            if str(h.raw.get("vis", "")).startswith("Restricted") and _tpl.Templates(h).events and self._single_call_site(h) and self._caller_conditions(h) is not None:
+                out.append(h)
+        return out
+
+    def _single_call_site(self, h):
+        n = 0
+        for c in self.all_bodies(h.crate):
+            if c.key == h.key:
+                continue
+            for blk, t in c.calls():
+                if mir.callee_of(t) == h.key:
+                    n += 1
+        return n == 1
 
     def find_aggregates(self, body, adt_rx, variant=None):
         rx = re.compile(adt_rx)
